@@ -218,6 +218,11 @@ func gnutarClass(df c05Diff, s *c05Ent) string {
 		if s.kind() == "chr" && df.Got == "blk" {
 			return "gnutar/char-device-as-block"
 		}
+	case "untar/symlink-mtime":
+		// the link's time became the epoch in the gnu-tar header, which untar then does not apply at all
+		if s.Nsec != 0 && (s.Sec == 0 || s.Sec == -1) {
+			return "gnutar/mtime-subsecond"
+		}
 	case "untar/mtime":
 		if s.Nsec != 0 && (df.Got == fmtTime(s.Sec, 0) || df.Got == fmtTime(s.Sec+1, 0)) {
 			return "gnutar/mtime-subsecond"
